@@ -145,3 +145,7 @@ CORPUS += [
     V("C02", "ffsp-wait-for-jobs-of-this-stage", _FF, "(job_loc < stage_idx[:, None]).any(dim=-1)", "(job_loc <= stage_idx[:, None]).any(dim=-1)", "C02.i"),
     V("C02", "eq-ffsp-wait-column-or", _FF, "job_in_previous_stages + job_waiting_in_stage + done", "job_in_previous_stages | job_waiting_in_stage | done", None),
 ]
+
+CORPUS += [
+    V("C19", "eq-fjsp-files-listing-only-counted", _FG, "        assert len(files) > 0", "        assert len(files) > 0 and len(os.listdir(path)) >= len(files)", None),
+]
